@@ -90,7 +90,7 @@ class LC:
         if not isinstance(o, LC):
             return UNK
         out = {}
-        for k in set(self.terms) | set(o.terms):
+        for k in sorted(set(self.terms) | set(o.terms)):
             a = (self.terms.get(k) or o.terms.get(k))[0]
             c1 = self.terms[k][1] if k in self.terms else z3.RealVal(0)
             c2 = o.terms[k][1] if k in o.terms else z3.RealVal(0)
